@@ -10,6 +10,7 @@ from .facts import SKETCH_CLASSES, const_int, facts_of
 from .flow import Arr, Bytes, Num, Opaque, Tup, conjuncts, show_cond
 from .lin import Lin, show_lin
 from .model import AnalysisError, call_name, calls_in, dotted, resolve_temps, self_attr, unparse, walk_no_nested
+from .model import comes_before, is_inside
 from .rules_arith import agg, fact_strs, group_by_node, on_path, on_path_h, src
 
 H = "helpers"
@@ -104,7 +105,7 @@ def workers_list(pa, wk):
 def _top_index(func, node):
     """Index of the top-level statement of func's body containing node."""
     for i, s in enumerate(func.body()):
-        if s.lineno <= node.lineno <= s.end_lineno:
+        if is_inside(func.node, node, s):
             return i
     return -1
 
@@ -217,7 +218,7 @@ def rule_pills(ctx):
         "after all items at least one poison pill per worker is queued", res)
     ctx.ob("pills", fq, pill_loops[0] if pill_loops else fq.node, "pill loop body", "each iteration of the pill loop puts a pill unconditionally", bool(unconditional))
     if pill_loops and item_loops:
-        ctx.ob("pills", fq, pill_loops[0], "pills after items", "pills are queued after every item", pill_loops[0].lineno > item_loops[0].end_lineno)
+        ctx.ob("pills", fq, pill_loops[0], "pills after items", "pills are queued after every item", comes_before(fq.node, item_loops[0], pill_loops[0]))
     # the same n_workers binding feeds the pill count and the number of workers started
     nw = amap.get(pill_param) if pill_param else None
     starts = []
@@ -372,7 +373,7 @@ def rule_once(ctx):
                     oka, where = True, n
             # for s in sketch: local_sketches.append(attach_shared_memory(*s))
             if isinstance(n, ast.For) and isinstance(n.iter, ast.Name) and n.iter.id in wk.params and isinstance(n.target, ast.Name) and not n.orelse:
-                aps = [(nm, v, c) for nm, v, c in _appends(wk) if nm == lname and n.lineno <= c.lineno <= n.end_lineno]
+                aps = [(nm, v, c) for nm, v, c in _appends(wk) if nm == lname and is_inside(wk.node, c, n)]
                 escapes = [x for x in walk_no_nested(n) if isinstance(x, (ast.Break, ast.Continue, ast.Return, ast.If))]
                 if len(aps) == 1 and not escapes and _is_attach_of(aps[0][1], n.target.id):
                     oka, where = True, n
@@ -1711,7 +1712,7 @@ def rule_dead(ctx):
                           and isinstance(n.value, ast.Constant) and n.value.value is False]
                 sets = [n for f in top_fors for n in ast.walk(f) if isinstance(n, ast.Assign) and isinstance(n.targets[0], ast.Name) and n.targets[0].id == flag
                         and isinstance(n.value, ast.Constant) and n.value.value is True]
-                same_for = any(node.lineno >= f.lineno and node.end_lineno <= f.end_lineno for f in top_fors for node, _, _ in fb)
+                same_for = any(is_inside(pa.node, node, f) for f in top_fors for node, _, _ in fb)
                 if flag and resets and sets and same_for and mon.body.index(resets[0]) < mon.body.index(top_fors[0]):
                     final_ok, why = True, ""
                 else:
@@ -1725,8 +1726,8 @@ def rule_dead(ctx):
                       and isinstance(n.value, ast.Constant) and n.value.value is False]
             sets = [n for f in fors for n in ast.walk(f) if isinstance(n, ast.Assign) and isinstance(n.targets[0], ast.Name) and n.targets[0].id == flag
                     and isinstance(n.value, ast.Constant) and n.value.value is True]
-            same_for = bool(fors) and any(node.lineno >= f.lineno and node.end_lineno <= f.end_lineno for f in fors for node, _, _ in fb)
-            if resets and sets and same_for and resets[0].lineno < fors[0].lineno:
+            same_for = bool(fors) and any(is_inside(pa.node, node, f) for f in fors for node, _, _ in fb)
+            if resets and sets and same_for and comes_before(pa.node, resets[0], fors[0]):
                 final_ok, why = True, ""
             else:
                 why = "the loop flag `%s` is not recomputed by the pass that inspects the exit codes" % flag
